@@ -71,6 +71,25 @@ fn ctx_model_line<S: ShortGroupSignatureScheme>(em: &mut Emitter, suite: &str, p
         (Out::Ok(_), Some(h)) => h,
         (Out::Ok(true), None) => "true-without-recomputation".to_string(),
     };
+    // the context's own Fiat–Shamir transcript: which items the issuer hashed (the blind commitment — the statement of the
+    // proof — must be among them), compared with the model's item list fed with the public key bytes, the commitment of
+    // the request and the recomputed value
+    if let (true, Some(rch)) = (r.is_ok(), log.iter().find(|e| e.kind == 0 && e.label == b"random commitment").map(|e| hexs(&e.data))) {
+        let tid = log.iter().find(|e| e.kind == 0 && e.label == b"random commitment").map(|e| e.tid);
+        let items: Vec<String> = log
+            .iter()
+            .filter(|e| Some(e.tid) == tid && e.kind == 0 && e.label != b"dom-sep")
+            .map(|e| format!("{}={}", String::from_utf8_lossy(&e.label).replace(' ', "_"), if e.data.is_empty() { "-".to_string() } else { hexs(&e.data) }))
+            .collect();
+        let pkb = {
+            use credx::knox::short_group_sig_core::short_group_traits::PublicKey as _;
+            hexs(public.verifying_key.to_bytes().as_ref())
+        };
+        em.op(
+            format!("bl.items {} {} {} {} {} {}", suite, pkb, g1_hex_c(&G1Projective::GENERATOR), rch, ctx["commitment"].as_str().unwrap_or("-"), sc_hex(&req.nonce)),
+            items.join(" "),
+        );
+    }
     let j = |v: &[String]| if v.is_empty() { "-".to_string() } else { v.join(",") };
     em.op(
         format!("bl.verify {} {} {} {} {} {}", gens.len(), j(&known_idx.iter().map(|i| i.to_string()).collect::<Vec<_>>()), n_extra, j(&proofs), ctx["challenge"].as_str().unwrap_or("-"), j(&bases)),
